@@ -27,6 +27,10 @@ class Scalar (K : Type) where
   ofNat : Nat → K
   /-- `x ** 0.5` of a real number (the real part is used) -/
   sqrtRe : K → K
+  /-- `|a| > |b|` (pivot choice in the elimination) -/
+  absGt : K → K → Bool
+  /-- exact equality test -/
+  beq : K → K → Bool
   /-- `exp(-1j * w_k)` on scipy's `freqz` grid: `w_k = k * (π / n)` (`whole = false`) or
   `k * (2π / n)` (`whole = true`) -/
   phasor : Bool → Nat → Nat → K
@@ -55,6 +59,57 @@ def gridPhasor {K : Type} [Scalar K] (incl whole : Bool) (k n : Nat) : K :=
 /-- `Σ_j c_j z^j` (what `scipy.signal.freqz` evaluates at `z = exp(-1j w)`) -/
 def polyEval {K : Type} [Scalar K] (c : List K) (z : K) : K :=
   sumRange c.length fun j => c.getD j Scalar.zero *. powNat z j
+
+/-! ### Gauss–Jordan inverse (models `scipy.linalg.inv` / `scipy.linalg.solve`), generic
+
+The state is an `n × w` array rebuilt entry by entry at each column step, so that every entry of
+the new state is an explicit expression in entries of the old one (`Lemmas/GaussJordan.lean`
+proves: whenever `inv?` returns `X`, `X·A = I`). -/
+namespace GMat
+variable {K : Type} [Scalar K]
+
+def entry (a : List (List K)) (i j : Nat) : K := (a.getD i []).getD j Scalar.zero
+
+def ofFn (n m : Nat) (f : Nat → Nat → K) : List (List K) :=
+  (List.range n).map fun i => (List.range m).map fun j => f i j
+
+/-- partial pivoting: the row (≥ c) with the largest |entry| in column `c` -/
+def pivotRow (n : Nat) (rows : List (List K)) (c : Nat) : Nat :=
+  (List.range n).foldl (fun bi i => if c ≤ i && Scalar.absGt (entry rows i c) (entry rows bi c) then i else bi) c
+
+/-- one column step: swap the pivot row into place, scale it, eliminate the column elsewhere -/
+def gjStep (n w : Nat) (rows : List (List K)) (c : Nat) : List (List K) :=
+  let best := pivotRow n rows c
+  let sw : Nat → Nat → K := fun i j => entry rows (if i = c then best else if i = best then c else i) j
+  let piv := sw c c
+  ofFn n w fun i j => if i = c then sw c j /. piv else sw i j -. sw i c *. (sw c j /. piv)
+
+def gjReduce (n w : Nat) (aug : List (List K)) : List (List K) := (List.range n).foldl (gjStep n w) aug
+
+/-- `[A | I]` -/
+def augment (n : Nat) (a : List (List K)) : List (List K) :=
+  ofFn n (2 * n) fun i j => if j < n then entry a i j else if j - n = i then Scalar.one else Scalar.zero
+
+def isIdentLeft (n : Nat) (rows : List (List K)) : Bool :=
+  (List.range n).all fun i => (List.range n).all fun j =>
+    Scalar.beq (entry rows i j) (if i = j then Scalar.one else Scalar.zero)
+
+/-- the inverse, when the elimination ends with the identity on the left -/
+def inv? (n : Nat) (a : List (List K)) : Option (List (List K)) :=
+  let red := gjReduce n (2 * n) (augment n a)
+  if isIdentLeft n red then some (ofFn n n fun i j => entry red i (n + j)) else none
+
+/-- `X·y` -/
+def mulVec (n : Nat) (x : List (List K)) (y : List K) : List K :=
+  (List.range n).map fun i => sumRange n fun k => entry x i k *. y.getD k Scalar.zero
+
+/-- `linalg.solve(a, y)` modelled as `inv(a)·y` (empty when singular) -/
+def solve (a : List (List K)) (y : List K) : List K :=
+  match inv? y.length a with
+  | some x => mulVec y.length x y
+  | none => []
+
+end GMat
 
 /-! ### complex binary64 -/
 
@@ -99,6 +154,8 @@ instance : Scalar CF where
   one := ⟨1.0, 0.0⟩
   ofNat := fun n => ⟨n.toFloat, 0.0⟩
   sqrtRe := fun z => ⟨Float.sqrt z.re, 0.0⟩
+  absGt := fun a b => CF.normSq a > CF.normSq b
+  beq := fun a b => a.re == b.re && a.im == b.im
   phasor := CF.phasor
 
 /-! ### square matrices -/
@@ -137,36 +194,11 @@ def ctrans (n : Nat) (a : Mat) : Mat := ofFn n n fun i j => CF.conj (entry a j i
 def ident (n : Nat) : Mat := ofFn n n fun i j => if i = j then ⟨1.0, 0.0⟩ else ⟨0.0, 0.0⟩
 def zeros (n : Nat) : Mat := ofFn n n fun _ _ => ⟨0.0, 0.0⟩
 
-/-- one Gauss–Jordan column step on the augmented rows (partial pivoting by |.|²) -/
-def gjStep (rows : List (List CF)) (c : Nat) : List (List CF) :=
-  let n := rows.length
-  -- pivot row: largest |entry| in column c among rows c..n-1
-  let best := (List.range n).foldl (fun (bi : Nat) i =>
-      if i ≥ c ∧ CF.normSq ((rows.getD i []).getD c ⟨0.0, 0.0⟩) > CF.normSq ((rows.getD bi []).getD c ⟨0.0, 0.0⟩)
-      then i else bi) c
-  let rowc := rows.getD c []
-  let rowb := rows.getD best []
-  let rows := (List.range n).map fun i => if i = c then rowb else if i = best then rowc else rows.getD i []
-  let piv := (rows.getD c []).getD c ⟨0.0, 0.0⟩
-  let prow := (rows.getD c []).map fun x => CF.div x piv
-  (List.range n).map fun i =>
-    if i = c then prow else
-      let r := rows.getD i []
-      let f := r.getD c ⟨0.0, 0.0⟩
-      List.zipWith (fun x p => CF.sub x (CF.mul f p)) r prow
-
-/-- solve `a · X = rhs` for the columns of `rhs` (n × m); Gauss–Jordan with partial pivoting -/
-def solveMat (n : Nat) (a rhs : Mat) : Mat :=
-  let aug := List.zipWith (fun r s => r ++ s) a rhs
-  let red := (List.range n).foldl gjStep aug
-  red.map fun r => r.drop n
-
-def inv (n : Nat) (a : Mat) : Mat := solveMat n a (ident n)
+/-- `scipy.linalg.inv`: the generic Gauss–Jordan inverse at complex binary64 (zeros when singular) -/
+def inv (n : Nat) (a : Mat) : Mat := (GMat.inv? n a).getD (zeros n)
 
 /-- `scipy.linalg.solve(a, y)` for a vector right-hand side -/
-def solveVec (a : Mat) (y : List CF) : List CF :=
-  let n := y.length
-  (solveMat n a (y.map fun v => [v])).map fun r => r.getD 0 ⟨0.0, 0.0⟩
+def solveVec (a : Mat) (y : List CF) : List CF := GMat.solve a y
 end Mat
 
 /-- square matrices of a fixed size (the size is a phantom parameter) -/
